@@ -112,7 +112,36 @@ class Walker:
         callee = _callee(call)
         sig = self.sigs[callee]
         names = [p for p, _ in sig]
-        if any(isinstance(a, ast.Starred) for a in call.args) or any(k.arg is None for k in call.keywords):
+        if any(isinstance(a, ast.Starred) for a in call.args):
+            # `f(*helper(a, b), ...)` where `helper` is a module-level function of the same file whose body is one
+            # `return (e1, e2, ...)` of expressions in its own parameters: the same call as `f(e1[a, b], e2[a, b], ...)`
+            import copy
+
+            new_args = []
+            for a in call.args:
+                if not isinstance(a, ast.Starred):
+                    new_args.append(a)
+                    continue
+                h = a.value
+                fd = getattr(self, "fdefs", {}).get(_callee(h)) if isinstance(h, ast.Call) else None
+                body = [s_ for s_ in (fd.body if fd else []) if not (isinstance(s_, ast.Expr) and isinstance(s_.value, ast.Constant))]
+                ok = (fd is not None and not fd.decorator_list and len(body) >= 1 and isinstance(body[-1], ast.Return)
+                      and isinstance(body[-1].value, ast.Tuple) and not h.keywords and not fd.args.vararg and not fd.args.kwarg
+                      and not fd.args.kwonlyargs and not fd.args.defaults and len(h.args) == len(fd.args.args)
+                      and not any(isinstance(x, ast.Starred) for x in h.args)
+                      and all(isinstance(s_, ast.Assign) and len(s_.targets) == 1 and isinstance(s_.targets[0], ast.Name)
+                              and not any(isinstance(n, ast.Call) and self.tracked(n) for n in ast.walk(s_.value)) for s_ in body[:-1]))
+                if not ok:
+                    raise Refuse(f"{self.fname}: star arguments at {callee} (line {call.lineno})")
+                penv = {p.arg: ast.unparse(v) for p, v in zip(fd.args.args, h.args)}
+                for s_ in body[:-1]:  # straight-line locals of the helper, each read after it is bound
+                    penv[s_.targets[0].id] = ast.unparse(Subst(penv).visit(copy.deepcopy(s_.value)))
+                for e in body[-1].value.elts:
+                    if {n.id for n in ast.walk(e) if isinstance(n, ast.Name)} - set(penv) - {"np"}:
+                        raise Refuse(f"{self.fname}: star arguments at {callee} (line {call.lineno}): helper reads other names")
+                    new_args.append(ast.copy_location(Subst(penv).visit(copy.deepcopy(e)), a))
+            call = ast.copy_location(ast.Call(func=call.func, args=new_args, keywords=call.keywords), call)
+        if any(k.arg is None for k in call.keywords):
             raise Refuse(f"{self.fname}: star arguments at {callee} (line {call.lineno})")
         if len(call.args) > len(names):
             raise Refuse(f"{self.fname}: too many positional arguments at {callee} (line {call.lineno})")
@@ -220,6 +249,7 @@ def translate(repo):
         if fd.decorator_list:
             raise Refuse(f"{f}: decorated")
         w = Walker(f, sigs)
+        w.fdefs = fdefs
         body = fd.body
         if body and isinstance(body[0], ast.Expr) and isinstance(body[0].value, ast.Constant) and isinstance(body[0].value.value, str):
             body = body[1:]
